@@ -141,6 +141,8 @@ _failed: Failed
     ensures
         // C41: manifest- and object-level faults reject the point, they are not errors
         P::PubPoint::infallible() && !stored_read_fatal(store) ==> res is Ok,
+        // C41: (the same, in terms of the run-wide I/O failure flag)
+        P::PubPoint::infallible() && !io_failure() ==> res is Ok,
         // C01: every child task returned is for a CA validated under this one
         res matches Ok(tasks) ==> forall|i: int| 0 <= i < tasks@.len() ==>
             child_ok(#[trigger] tasks@[i], *self.cert, self.run.validation.max_ca_depth),
@@ -184,8 +186,7 @@ _failed: Failed
         // matching hash
         res matches Ok(Some(obj)) ==> object_listed(obj.uri, obj.content, old(collected), &**old(self).cert),
         // C41: the update is abandoned (not failed) for a missing or mismatching file
-        res matches Err(UpdateError::Failed(_)) ==> !P::PubPoint::infallible()
-            || exists|u: RsyncUri| repo_load_failed(collector, &u),
+        res matches Err(UpdateError::Failed(_)) ==> !P::PubPoint::infallible() || io_failure(),
 //@ fn PubPoint::process_collected
 //@ spec
     requires
@@ -193,6 +194,9 @@ _failed: Failed
         self.processor.log() == Seq::<Item>::empty(),
     ensures
         res matches Ok(Err(this)) ==> this.run == self.run && this.cert == self.cert,
+        // C41: whatever the repository serves (missing, corrupt, stale, mismatching objects) the result is
+        // a list of child tasks or the fallback to the stored point, never an error
+        P::PubPoint::infallible() && !io_failure() ==> res is Ok,
         // C01: child tasks are for CAs validated under this one
         res matches Ok(Ok(tasks)) ==> forall|i: int| 0 <= i < tasks@.len() ==>
             child_ok(#[trigger] tasks@[i], *self.cert, self.run.validation.max_ca_depth),
@@ -202,6 +206,13 @@ _failed: Failed
     requires
         // C03 (paper step: process_ca_task hands over the fresh processor of process_ta / process_ca)
         self.processor.log() == Seq::<Item>::empty(),
+    ensures
+        // C41: a publication point never fails the run because of what a repository contains: Err arises
+        // only from the processor, from fatal store / collector I/O, or from the initial-run shortcut
+        P::PubPoint::infallible() && !io_failure() && !self.run.initial ==> res is Ok,
+        // C01: child tasks are for CAs validated under this one
+        res matches Ok(tasks) ==> forall|i: int| 0 <= i < tasks@.len() ==>
+            child_ok(#[trigger] tasks@[i], *self.cert, self.run.validation.max_ca_depth),
 //@ global
 impl vstd::std_specs::convert::FromSpecImpl<Failed> for UpdateError {
     open spec fn obeys_from_spec() -> bool { false }
